@@ -183,6 +183,17 @@ package app
 // (delegation reward balances) and the proposer (part of its validator record) together never exceed the amount pulled for
 // that block. Also C02: they never exceed what is booked as distributed (unless the booking itself failed: the code drops
 // the error of ConsumeRewards), and the booked amount is within the pulled amount.
+// C12 (added by the C12 worker): the withdrawn delegation rewards that mature at this block's height are paid in THIS block,
+// whatever the balance of the delegation pool: whenever the hook runs to its normal end (it returns the event of type
+// "block_rewards"), matureDelegationRewards has run for block.Header.Height, i.e. its own postconditions hold: every pending
+// reward record of this height that the scan visits is zero afterwards, what was paid into balances is what was taken
+// out of the pending records, and each visited delegator received at least its record.  IteratePD scans only the
+// current height, so a record that is not matured in its block is never paid.  NOTE: the early error returns (currency id 0
+// missing, unparsable validator power, GetPoolList / GetBalanceForCurr / PullRewards failing) return the empty Event and
+// skip the maturation as well: in such a block the matured withdrawals are lost in the same way.
+//@   ensures result.Type == "block_rewards" ==> forall j int :: 0 <= j && j < ndPDCount(appCtx.netwkDelegators.Rewards, block.Header.Height) ==> ndRewPend(appCtx.netwkDelegators.Rewards, block.Header.Height, bytes(ndPDA(appCtx.netwkDelegators.Rewards, block.Header.Height, j))) == 0   // C12.rewards-matured
+//@   ensures result.Type == "block_rewards" ==> balTotal(appCtx.balances)["OLT"] + ndRPendTotal(appCtx.netwkDelegators.Rewards) == old(balTotal(appCtx.balances))["OLT"] + old(ndRPendTotal(appCtx.netwkDelegators.Rewards))   // C12.rewards-matured
+//@   ensures result.Type == "block_rewards" ==> forall j int :: 0 <= j && j < ndPDCount(appCtx.netwkDelegators.Rewards, block.Header.Height) ==> bal(appCtx.balances)[balKey(bytes(ndPDA(appCtx.netwkDelegators.Rewards, block.Header.Height, j)), "OLT")] >= old(bal(appCtx.balances))[balKey(bytes(ndPDA(appCtx.netwkDelegators.Rewards, block.Header.Height, j)), "OLT")] + old(ndRewPend(appCtx.netwkDelegators.Rewards, block.Header.Height, bytes(ndPDA(appCtx.netwkDelegators.Rewards, block.Header.Height, j))))   // C12.rewards-matured
 //@   ensures lastPulled(appCtx.rewardMaster.RewardCm) >= 0 ==> rwdTotal(appCtx.rewardMaster.Reward) - old(rwdTotal(appCtx.rewardMaster.Reward)) + (ndRewTotal(appCtx.netwkDelegators.Rewards) - old(ndRewTotal(appCtx.netwkDelegators.Rewards))) <= lastPulled(appCtx.rewardMaster.RewardCm)   // C13.within-pulled
 //@   ensures lastPulled(appCtx.rewardMaster.RewardCm) >= 0 ==> cum(appCtx.rewardMaster.RewardCm)[rwTotKey(appCtx.rewardMaster.RewardCm.prefix)] - old(cum(appCtx.rewardMaster.RewardCm))[rwTotKey(appCtx.rewardMaster.RewardCm.prefix)] <= lastPulled(appCtx.rewardMaster.RewardCm)   // C13.within-pulled
 //@   ensures lastPulled(appCtx.rewardMaster.RewardCm) >= 0 ==> rwdTotal(appCtx.rewardMaster.Reward) - old(rwdTotal(appCtx.rewardMaster.Reward)) + (ndRewTotal(appCtx.netwkDelegators.Rewards) - old(ndRewTotal(appCtx.netwkDelegators.Rewards))) <= cum(appCtx.rewardMaster.RewardCm)[rwTotKey(appCtx.rewardMaster.RewardCm.prefix)] - old(cum(appCtx.rewardMaster.RewardCm))[rwTotKey(appCtx.rewardMaster.RewardCm.prefix)] || cum(appCtx.rewardMaster.RewardCm)[rwTotKey(appCtx.rewardMaster.RewardCm.prefix)] == old(cum(appCtx.rewardMaster.RewardCm))[rwTotKey(appCtx.rewardMaster.RewardCm.prefix)]   // C13.credited-le-booked
